@@ -39,14 +39,22 @@ pub struct Agg {
     pub fault_positions: BTreeSet<(u64, &'static str)>,
     pub samples: Vec<Value>,
     pub lifetimes: u64,
+    pub rules: Vec<String>,
+    pub target_sigs: HashSet<u64>,
 }
 
 impl Agg {
+    pub fn new(rules: &[&str]) -> Self {
+        Agg { rules: rules.iter().map(|s| s.to_string()).collect(), ..Default::default() }
+    }
     pub fn absorb(&mut self, r: &RunResult, profile: &str, target: &str) {
         self.runs += 1;
         self.steps += r.steps;
         self.lifetimes += r.lifetimes as u64;
         self.sigs.insert(r.trace_sig);
+        if self.rules.iter().any(|x| r.stats.evals.get(x.as_str()).copied().unwrap_or(0) > 0) {
+            self.target_sigs.insert(r.trace_sig);
+        }
         for (k, v) in r.stats.evals.iter() {
             *self.stats.evals.entry(k).or_insert(0) += v;
         }
@@ -96,6 +104,7 @@ pub fn profile_from(s: &str) -> Profile {
         "Amounts" => Profile::Amounts,
         "Expiry" => Profile::Expiry,
         "Crashy" => Profile::Crashy,
+        "Probe" => Profile::Probe,
         "Hostile" => Profile::Hostile,
         "Reject" => Profile::Reject,
         "Classify" => Profile::Classify,
@@ -106,17 +115,17 @@ pub fn profile_from(s: &str) -> Profile {
 }
 
 /// Run `runs` random simulations spread over `profiles`, seeds derived from (seed, property, i).
-pub fn campaign(target: &str, seed: u64, thorough: bool, profiles: &[Profile], runs: u64, wall_cap_s: u64) -> Agg {
+pub fn campaign(target: &str, rules: &[&str], seed: u64, thorough: bool, profiles: &[Profile], runs: u64, wall_cap_s: u64) -> Agg {
     install_panic_hook();
     let next = AtomicU64::new(0);
     let stop = AtomicBool::new(false);
-    let agg = Mutex::new(Agg::default());
+    let agg = Mutex::new(Agg::new(rules));
     let t0 = Instant::now();
     let base = mix(seed, hash_str(target));
     std::thread::scope(|s| {
         for _ in 0..threads() {
             s.spawn(|| {
-                let mut local = Agg::default();
+                let mut local = Agg::new(rules);
                 loop {
                     let i = next.fetch_add(1, Ordering::Relaxed);
                     if i >= runs || stop.load(Ordering::Relaxed) {
@@ -157,6 +166,7 @@ pub fn merge(a: &mut Agg, b: Agg) {
     a.steps += b.steps;
     a.lifetimes += b.lifetimes;
     a.sigs.extend(b.sigs);
+    a.target_sigs.extend(b.target_sigs);
     for (k, v) in b.stats.evals {
         *a.stats.evals.entry(k).or_insert(0) += v;
     }
@@ -219,7 +229,13 @@ pub fn write_replay(id: &str, seed: u64, profile: &str, thorough: bool, v: &Viol
     let _ = std::fs::create_dir_all(&dir);
     let path = format!("{dir}/{id}-{seed}.json");
     // re-run with the event log on
-    let events: Vec<String> = if extra.get("engine").and_then(|e| e.as_str()).unwrap_or("sim") == "sim" {
+    let engine = extra.get("engine").and_then(|e| e.as_str()).unwrap_or("sim").to_string();
+    let events: Vec<String> = if engine == "enum" {
+        match std::panic::catch_unwind(std::panic::AssertUnwindSafe(|| crate::enumerate::replay_item(thorough, seed as usize))) {
+            Ok(Some(r)) => r.events.iter().map(|e| format!("[{} t={}ms] {}", e.step, e.t_ms, e.text)).collect(),
+            _ => vec!["(replay of the enumerated history failed)".into()],
+        }
+    } else if engine == "sim" {
         let r = std::panic::catch_unwind(std::panic::AssertUnwindSafe(|| {
             run_one(RunOpts { seed, profile: profile_from(profile), thorough, log_events: true, script: None, plan_override: None })
         }));
@@ -264,7 +280,8 @@ pub fn conclude(id: &str, tier: &str, seed: u64, level: &str, agg: &Agg, rules: 
         }
         n_viol += 1;
         if reported.insert(v.signature.clone()) && reported.len() <= 5 {
-            let path = write_replay(id, *rs, prof, tier == "thorough", v, json!({"engine": "sim"}));
+            let engine = if prof.starts_with("enum:") { "enum" } else { "sim" };
+            let path = write_replay(id, *rs, prof, tier == "thorough", v, json!({"engine": engine}));
             println!("VIOLATION property={id} replay={path}");
             eprintln!("  rule {} signature {} : {}", v.rule, v.signature, v.detail);
         }
@@ -283,7 +300,8 @@ pub fn conclude(id: &str, tier: &str, seed: u64, level: &str, agg: &Agg, rules: 
     let distinct: u64 = rules.iter().map(|r| agg.stats.contexts.get(r).map(|s| s.len() as u64).unwrap_or(0)).sum();
     let mut cov = json!({
         "evaluations": agg.runs,
-        "distinct_nontrivial": distinct.min(agg.sigs.len() as u64).max(if agg.sigs.len() >= 2 { 2.min(distinct) } else { 0 }),
+        "distinct_nontrivial": agg.target_sigs.len(),
+        "distinct_target_contexts": distinct,
         "rule": rule_text,
         "samples": agg.samples,
         "distinct_abstract_traces": agg.sigs.len(),
@@ -356,19 +374,41 @@ pub fn run_check(id: &str, tier: &str, seed: u64) -> i32 {
     let n = |q: u64, t: u64| if thorough { t } else { q };
     use Profile::*;
     let sim = |profiles: &[Profile], rules: &[&str], runs: u64, text: &str, level: &str| -> i32 {
-        let agg = campaign(id, seed, thorough, profiles, runs, if thorough { 1500 } else { 100 });
+        let agg = campaign(id, rules, seed, thorough, profiles, runs, if thorough { 1500 } else { 100 });
         conclude(id, tier, seed, level, &agg, rules, text, sim_assumptions(), t0, json!({}), None)
     };
-    let rt = "random seeded runs of the real manager/store/provider/block-watcher against SimNode under a hostile scheduler; a case is one run; distinct = distinct decision contexts (node parts x durable record x held set x cause) in which the target rules were evaluated, capped by the number of distinct abstract traces";
+    let rt = "random seeded runs of the real manager/store/provider/block-watcher against SimNode under a hostile scheduler; a case is one run; distinct_nontrivial = number of distinct abstract traces (sequence of (step kind, per-hash durable record, parts-status multiset, held count)) among runs in which a target rule was actually evaluated";
+    let fe = |profiles: &[Profile], rules: &[&str], runs: u64, text: &str| -> i32 {
+        let mut agg = campaign(id, rules, seed, thorough, profiles, runs, if thorough { 1200 } else { 60 });
+        let random_runs = agg.runs;
+        let e = crate::enumerate::enumerate(id, rules, thorough, if thorough { 1500 } else { 100 });
+        let extra = json!({
+            "random_runs": random_runs,
+            "enumerated_scenarios": e.scenarios,
+            "enumerated_histories": e.histories,
+            "enumerated_crash_positions": e.crash_histories,
+            "enumerated_write_faults": e.fault_histories,
+            "enumerated_crash_x_fault": e.combined_histories,
+            "enumeration_bound": "1 hash; 1-2 HTLCs; 1 outgoing part; every pay outcome x resolution order; effect/reply fused or split; one crash at every environment step of the first lifetime and/or one datastore write fault (rejected | lost reply) at every write; followed by restart, drain, up to 3 probes",
+        });
+        let complete = e.complete;
+        merge(&mut agg, e.agg);
+        if !complete {
+            agg.inconclusive.insert("enumeration stopped by the wall-clock watchdog".into(), 1);
+        }
+        conclude(id, tier, seed, "fault_enumeration", &agg, rules, text, sim_assumptions(), t0, extra, Some(complete))
+    };
+    let ft = "enumeration: canonical payments with one crash at every step and/or one write fault at every datastore write (exhaustive for the stated bound), plus random seeded hostile runs with crashes, restarts and faults; a case is one history; distinct_nontrivial = number of distinct abstract traces (sequence of (step kind, durable record, parts-status multiset, held count)) among histories in which a target rule was actually evaluated";
     match id {
+        "C02" => fe(&[Crashy, Mixed, Reject], &["R02"], n(30_000, 1_500_000), ft),
+        "C05" => fe(&[Crashy, Mixed], &["R05"], n(30_000, 1_500_000), ft),
+        "C08" => fe(&[Crashy, Mixed], &["R08a", "R08c"], n(30_000, 1_500_000), ft),
+        "C09" => fe(&[Probe], &["R09"], n(20_000, 800_000), ft),
         "C01" => sim(&[Hashes, Mixed, Crashy], &["R01a", "R01b", "R01c"], n(24_000, 1_000_000), rt, "exploration"),
-        "C02" => sim(&[Crashy, Mixed, Reject], &["R02"], n(30_000, 1_500_000), rt, "exploration"),
         "C03" => sim(&[Amounts, Mixed, Reject], &["R03a", "R03b", "R03c"], n(24_000, 1_000_000), rt, "exploration"),
         "C04" => sim(&[Expiry, Mixed], &["R04a"], n(24_000, 1_000_000), rt, "exploration"),
-        "C05" => sim(&[Crashy, Mixed], &["R05"], n(30_000, 1_500_000), rt, "exploration"),
         "C06" => sim(&[Hostile, Mixed, Crashy, Reject], &["R06a", "R06b", "R06c", "R06d"], n(24_000, 1_000_000), rt, "exploration"),
         "C07" => sim(&[Reject, Mixed], &["R07a", "R07b", "R07c"], n(24_000, 1_000_000), rt, "exploration"),
-        "C08" => sim(&[Crashy, Mixed], &["R08a", "R08c"], n(30_000, 1_500_000), rt, "exploration"),
         "C10" => sim(&[Classify, Hashes], &["R10"], n(24_000, 1_000_000), rt, "exploration"),
         "C11" => sim(&[Timeout, Mixed], &["R11a", "R11b", "R11c"], n(24_000, 1_000_000), rt, "exploration"),
         "C13" => sim(&[PassThrough, Mixed], &["R13a", "R13b"], n(24_000, 1_000_000), rt, "exploration"),
@@ -392,7 +432,14 @@ pub fn replay(path: &str) -> i32 {
     let profile = v["profile"].as_str().unwrap_or("Mixed").to_string();
     let thorough = v["thorough"].as_bool().unwrap_or(false);
     install_panic_hook();
-    let r = run_one(RunOpts { seed, profile: profile_from(&profile), thorough, log_events: true, script: None, plan_override: None });
+    let r = if v["engine"].as_str() == Some("enum") {
+        match crate::enumerate::replay_item(thorough, seed as usize) {
+            Some(r) => r,
+            None => return 2,
+        }
+    } else {
+        run_one(RunOpts { seed, profile: profile_from(&profile), thorough, log_events: true, script: None, plan_override: None })
+    };
     for e in &r.events {
         println!("[{} t={}ms] {}", e.step, e.t_ms, e.text);
     }
@@ -428,7 +475,7 @@ pub fn dev_run(args: &Args) -> i32 {
         return 0;
     }
     let t0 = Instant::now();
-    let agg = campaign("DEV", seed, thorough, &[profile], n, 3600);
+    let agg = campaign("DEV", &[], seed, thorough, &[profile], n, 3600);
     let mut by_sig: BTreeMap<String, (u64, u64, String)> = BTreeMap::new();
     for (s, _p, v) in &agg.violations {
         let e = by_sig.entry(format!("{}:{}", v.property, v.signature)).or_insert((0, *s, v.detail.clone()));
